@@ -21,7 +21,7 @@ ARRIVALS = ['identity','reversed','interleave','rotate']
 
 def _classify(v): return v['what'].split(':')[0][:100]
 
-@obligation('C01','emulated_configs', bounds="8 programs x experiment seed {1,7} x maxtasksperchunk in [0,4] (z3 int through the real ChunkTasks) x 4 arrival orders of worker outputs; second construction+run equals the first",
+@obligation('C01','emulated_configs', bounds="10 programs x experiment seed {1,7} x maxtasksperchunk in [0,4] (z3 int through the real ChunkTasks) x 4 arrival orders of worker outputs; second construction+run equals the first",
             functions=FUNCS, params=lambda tier: [dict(prog=p, seed=s) for p in exp.PROGRAMS for s in (1,7)], classify=_classify)
 def emulated_configs(sym, prog, seed):
     ref = exp.comparable(exp.run_real(prog, seed=seed, processes=1, maxchunksperchild=0, maxtasksperchunk=0))
